@@ -18,6 +18,7 @@
 -/
 import VProofs.Obligations.PandasTypeset
 import VProofs.Obligations.PandasGoodB
+import VProofs.Obligations.PandasTotal
 import VProofs.Props.C16
 import VProofs.Props.C14
 import VProofs.Props.C01
@@ -277,5 +278,33 @@ theorem C01_pandas_built (o : ColOracle) (S : List Ty) (nd : S.Nodup) (hg : Ty.G
   have := C01.C01_pandas o b ft.rank c (by rw [hr]; rfl)
   rw [hr] at this ⊢
   exact this
+
+/-- **the pandas model's `infer`, end to end**: for every constructible typeset over the 22 types and every column that
+passes the executable check `goodB o c && guardsOkB o c`, the traversal the driver evaluates returns normally, and its
+answer is sound (the cast column is in the reported type, detecting it gives that type) and convergent (inferring the
+cast column again changes nothing) -/
+theorem infer_pandas_complete (o : ColOracle) (S : List Ty) (nd : S.Nodup) (hg : Ty.Generic ∈ S)
+    (pc : ParentClosedL declared S) (hsub : ∀ t ∈ S, t ∈ completeSet) (c : Column)
+    (h : (goodB o c && guardsOkB o c) = true) :
+    ∃ b d p, mkTypeset declared isGeneric S = .ok b ∧
+      traverse (graphOf o b) 64 b.root c () [] = .ok (d, p, ()) ∧
+      containsB (plast b.root p) d = true ∧
+      plast b.root (ptraverse (pandasTS o b).idSucc 64 b.root d).2 = plast b.root p ∧
+      (ptraverse (pandasTS o b).succ 64 b.root d).1 = d ∧
+      plast b.root (ptraverse (pandasTS o b).succ 64 b.root d).2 = plast b.root p := by
+  simp only [Bool.and_eq_true] at h
+  have hG := goodB_sound o c h.1
+  have hK := guardsOkB_sound o c h.2
+  obtain ⟨b, hb, hr, _, ft, hN⟩ := built_typeset o S nd hg pc hsub
+  obtain ⟨⟨d, p, u⟩, hv⟩ := infer_total o b ft c hG hK (by rw [hr]; rfl)
+  cases u
+  refine ⟨b, d, p, hb, hv, ?_⟩
+  have e := infer_model_eq o b 64 b.root c d p hv
+  have wf := pandas_WF' o b ft
+  have h3 := infer_sound (pandasTS o b) wf Ty.Generic _ hN 64 (fuel_ok o b _) c hG rfl
+  have h4 := infer_fixpoint (pandasTS o b) wf Ty.Generic _ hN 64 (fuel_ok o b _) c hG rfl
+  rw [← hr] at h3 h4
+  simp only [e] at h3 h4
+  exact ⟨h3.1, h3.2.2, h4.1, h4.2⟩
 
 end V.PandasProps
